@@ -18,6 +18,7 @@ def run(e, R, tier):
         C.r_exc_breadth,
         C.r_feeder,
         C.r_feeder_hook,
+        C.r_result_lock,
         C.r_cause,
         L.r_own_resolve,
         L.r_drop_resolves,
